@@ -27,8 +27,8 @@ def sh(cmd, cwd=None, timeout=1800):
 
 
 def main():
-    pid, sdir, name = sys.argv[1], sys.argv[2], sys.argv[3]
-    extra = sys.argv[4:]
+    pid, sdir, name = sys.argv[1], os.path.abspath(sys.argv[2]), sys.argv[3]
+    extra = [x for x in sys.argv[4:] if not x.startswith("--")]
     patch = os.path.join(sdir, "patch.diff")
     demo = os.path.join(sdir, "demo.py")
     meta = dict(property=pid, name=name, confirmed=False)
@@ -56,13 +56,26 @@ def main():
         shutil.rmtree(wt, ignore_errors=True)
     checks = {}
     if meta.get("patch_applies"):
-        rc, out = sh("git -C %s status --porcelain" % REPO)
-        assert out.strip() == "", "refusing: /repo is not clean:\n" + out
+        # The checks are run against a scratch worktree carrying the change (ANNET_REPO), not against /repo itself,
+        # because other jobs import annet from /repo concurrently; `--in-repo` applies it to /repo and undoes it.
+        in_repo = "--in-repo" in sys.argv
+        wt2 = tempfile.mkdtemp(prefix="seedrun_")
+        os.rmdir(wt2)
         try:
-            rc, out = sh("git -C %s apply %s" % (REPO, patch))
-            assert rc == 0, out
-            for cid in [pid] + extra:
-                rc, out = sh("./check %s --tier quick" % cid, cwd=VERIF, timeout=3600)
+            if in_repo:
+                rc, out = sh("git -C %s status --porcelain" % REPO)
+                assert out.strip() == "", "refusing: /repo is not clean:\n" + out
+                rc, out = sh("git -C %s apply %s" % (REPO, patch))
+                assert rc == 0, out
+                env = ""
+            else:
+                rc, out = sh("git -C %s worktree add -q --detach %s HEAD" % (REPO, wt2))
+                assert rc == 0, out
+                rc, out = sh("git apply %s" % patch, cwd=wt2)
+                assert rc == 0, out
+                env = "ANNET_REPO=%s " % wt2
+            for cid in [pid] + [x for x in extra if not x.startswith("--")]:
+                rc, out = sh(env + "./check %s --tier quick" % cid, cwd=VERIF, timeout=3600)
                 lines = [l for l in out.splitlines() if l.startswith("VIOLATION") or l.startswith(cid + " ")]
                 checks[cid] = dict(exit=rc, lines=lines[-6:])
                 # keep the replay files of the violation next to the seed
@@ -75,7 +88,11 @@ def main():
                             os.makedirs(d, exist_ok=True)
                             shutil.copy(src, d)
         finally:
-            sh("git -C %s checkout -- ." % REPO)
+            if in_repo:
+                sh("git -C %s checkout -- ." % REPO)
+            else:
+                sh("git -C %s worktree remove --force %s" % (REPO, wt2))
+                shutil.rmtree(wt2, ignore_errors=True)
     meta["checks"] = checks
     meta["detected_by"] = [c for c, r in checks.items() if r["exit"] == 1]
     meta["detected_with_failing_input"] = [c for c, r in checks.items() if r["exit"] == 1 and any(
@@ -83,13 +100,15 @@ def main():
     dst = os.path.join(VERIF, "seeded", name)
     os.makedirs(dst, exist_ok=True)
     for f in ("patch.diff", "demo.py", "notes.md"):
-        if os.path.exists(os.path.join(sdir, f)):
+        if os.path.exists(os.path.join(sdir, f)) and os.path.abspath(os.path.join(sdir, f)) != os.path.abspath(os.path.join(dst, f)):
             shutil.copy(os.path.join(sdir, f), dst)
     # what it needs to manifest: first lines of the author's notes
     notes = open(os.path.join(sdir, "notes.md")).read() if os.path.exists(os.path.join(sdir, "notes.md")) else ""
     meta["needs_to_manifest"] = notes[:1200]
     meta["ran"] = ["scratch worktree: git apply patch.diff; pytest (existing suite); demo.py with/without the patch",
-                   "/repo: git apply patch.diff; ./check <id> --tier quick; git checkout -- ."]
+                   "checks: ./check <id> --tier quick against a worktree of /repo HEAD with patch.diff applied "
+                   "(ANNET_REPO=<worktree>; equivalent to git -C /repo apply … && ./check … && git -C /repo checkout -- ., "
+                   "used so that concurrent jobs importing /repo are not disturbed)"]
     json.dump(meta, open(os.path.join(dst, "meta.json"), "w"), indent=1)
     print(json.dumps({k: meta[k] for k in ("name", "confirmed", "tests_with_patch", "demo_without_patch_exit",
                                             "demo_with_patch_exit", "detected_by", "detected_with_failing_input") if k in meta}, indent=1))
